@@ -328,3 +328,100 @@ def check_layouts(ctx, rule="LAYOUT"):
                    f"dtype fields {fields} = constructor parameters = fields stored by the constructors",
                    f"dtype fields {fields}, constructor parameters {params}, fields stored {sorted(stored)} disagree: cls(**{{field: data[field]}}) (file reading, from_droplet) fails or drops a field")
     return n
+
+
+# ----------------------------------------------------------------------------- NaN ⇄ unset width
+def _nan_truth(test, var):
+    """truth value of ``test`` when ``var`` holds a float NaN (None = unknown)"""
+    if isinstance(test, ast.UnaryOp) and isinstance(test.op, ast.Not):
+        t = _nan_truth(test.operand, var)
+        return None if t is None else not t
+    if isinstance(test, ast.BoolOp):
+        vals = [_nan_truth(v, var) for v in test.values]
+        if isinstance(test.op, ast.And):
+            if any(v is False for v in vals):
+                return False
+            return True if all(v is True for v in vals) else None
+        if any(v is True for v in vals):
+            return True
+        return False if all(v is False for v in vals) else None
+    if isinstance(test, ast.Compare) and len(test.ops) == 1:
+        l, op, r = test.left, test.ops[0], test.comparators[0]
+        sides = (U(l), U(r))
+        if var not in sides:
+            return None
+        other = r if U(l) == var else l
+        if isinstance(op, (ast.Is, ast.IsNot)) and isinstance(other, ast.Constant) and other.value is None:
+            return isinstance(op, ast.IsNot)
+        if isinstance(other, ast.Constant) and isinstance(other.value, (int, float)) or (isinstance(other, ast.UnaryOp) and isinstance(other.operand, ast.Constant)):
+            if isinstance(op, (ast.Lt, ast.LtE, ast.Gt, ast.GtE, ast.Eq)):
+                return False  # every ordered comparison with NaN is False
+            if isinstance(op, ast.NotEq):
+                return True
+        return None
+    if isinstance(test, ast.Call) and U(test.func).split(".")[-1] == "isnan" and len(test.args) == 1 and U(test.args[0]) == var:
+        return True
+    if isinstance(test, ast.Name) and test.id == var:
+        return True  # bool(nan) is True
+    return None
+
+
+def check_nan_width(ctx, rule="IOAGREE"):
+    """An unset width is stored as NaN in the data record; readers rebuild droplets by passing
+    the stored field back to the constructor, i.e. through the width setter with value = NaN.
+    The setter must store NaN for NaN (every ordered comparison with NaN is False, so the
+    polarity of the range test matters: `value < 0 → raise` passes NaN, `value >= 0 → store,
+    else raise` rejects it)."""
+    m = ctx.model
+    try:
+        fi = m.func(f"{DROP}.DiffuseDroplet.interface_width@setter")
+    except KeyError:
+        ctx.undecided(rule, "DiffuseDroplet.interface_width:nan", None, "width setter not found")
+        return
+    var = fi.params[1]
+    site = fi.qualname + ":nan"
+
+    env = {var: "nan"}
+
+    def classify(v):
+        t = U(v)
+        if isinstance(v, ast.Name) and v.id in env:
+            return env[v.id]
+        if t.endswith("nan") or t in ("float('nan')", "float('NaN')"):
+            return "nan"
+        if isinstance(v, ast.Call) and U(v.func) in ("float", "np.float64", "np.double") and len(v.args) == 1:
+            return classify(v.args[0])
+        return None
+
+    def run(stmts):
+        """→ ('raise'|'store'|'fall'|'unknown', node)"""
+        for s in stmts:
+            if isinstance(s, ast.If):
+                t = _nan_truth(s.test, var) if env.get(var) == "nan" else None
+                if t is None:
+                    return "unknown", s
+                res = run(s.body if t else s.orelse)
+                if res[0] != "fall" or isinstance(res[1], ast.Return):
+                    return res
+            elif isinstance(s, ast.Raise):
+                return "raise", s
+            elif isinstance(s, ast.Return):
+                return "fall", s
+            elif isinstance(s, ast.Assign) and isinstance(s.targets[0], ast.Subscript) and "interface_width" in U(s.targets[0]):
+                return ("store", s) if classify(s.value) == "nan" else ("unknown", s)
+            elif isinstance(s, (ast.Assign, ast.AnnAssign)) and isinstance(s.targets[0] if isinstance(s, ast.Assign) else s.target, ast.Name):
+                tname = (s.targets[0] if isinstance(s, ast.Assign) else s.target).id
+                env[tname] = classify(s.value) if s.value is not None else None
+        return "fall", None
+
+    res, node = run(fi.node.body)
+    where = (fi, node) if node is not None else fi
+    if res == "store":
+        ctx.hold(rule, site, where, "a stored NaN (unset width) passes the setter and is stored as NaN again when a file is read")
+    elif res == "raise":
+        ctx.violate(rule, site, where, f"the width setter raises for NaN (`{U(node)[:60]}` is reached because every ordered comparison with NaN is False): "
+                    "a droplet with an unset width is written as NaN and cannot be read back")
+    elif res == "fall":
+        ctx.violate(rule, site, where, "the width setter stores nothing for NaN: an unset width read from a file keeps a stale value")
+    else:
+        ctx.undecided(rule, site, where, f"behaviour for NaN not decidable at `{U(node)[:60]}`")
